@@ -17,14 +17,14 @@ _NONE_FIELD = "none"
 def is_primitive(item):
     """
     Determines if the given item is a primitive value (either an int, float,
-    str, bool, or None).
+    complex, str, bytes, bool, Ellipsis, or None).
 
     Args:
         item (any): Any value
     Returns:
         bool: Whether the item is a primitive value.
     """
-    return isinstance(item, (int, float, str, bool)) or item is None
+    return isinstance(item, (int, float, complex, str, bytes, bool)) or item is None or item is Ellipsis
 
 
 def _name_regex(name_id):
@@ -767,6 +767,11 @@ class StretchyTreeMatcher:
             # the children noting the special case when the nodes of the array are actually parameters of the node
             # (e.g. a load function) instead of a child node
             if not ignore_field:
+                # A list of plain values (the names of a global/nonlocal statement) is content:
+                # unlike child statements, all of it has to be there
+                if (ins_value and all(is_primitive(value) for value in ins_value)
+                        and len(ins_value) != len(std_value)):
+                    is_match = False
                 for inssub_value, stdsub_value in zip(ins_value, std_value):
                     if not is_match:
                         break
